@@ -50,6 +50,10 @@ def main():
             shutil.copytree(os.path.join(wt, u), dst)
         else:
             shutil.copy(os.path.join(wt, u), dst)
+    # several worktrees share one CARGO_TARGET_DIR and cargo's fingerprints are workspace-relative: make sure nothing built from
+    # another worktree is considered fresh for this one
+    for u in untracked + other + a.src:
+        sh(f"find {u} -type f -exec touch {{}} +", wt)
     ran = []
     # 2. demo with change
     rc1, o1 = sh(a.demo_cmd, wt)
